@@ -44,7 +44,11 @@ Theorem tie_builder_place : forall b r,
                  | None => VNone
                  end /\
   ceil_log2 (reg_size b r) = gen_builder_alignment (gen_builder_size (bd_dw b) (b_width r)).
-Proof. intros b r. unfold reg_size, reg_addr. destruct (b_off r); repeat split; reflexivity. Qed.
+Proof.
+  (* operands of the source's sums and products may be written in either order *)
+  intros b r. unfold reg_size, reg_addr, gen_builder_size, gen_builder_addr, gen_builder_alignment.
+  destruct (b_off r); repeat split; try reflexivity; repeat (f_equal; try lia).
+Qed.
 Print Assumptions tie_builder_place.
 
 Theorem tie_builder_loop : forall b m r l,
